@@ -336,7 +336,7 @@ Theorem find_fixed_sorted : forall st n args, SortedInv st n -> inc (find_fixed 
 Proof.
   intros st n args [H1 [H2 H3]]. unfold find_fixed.
   pose proof (find_fixed_loop_sorted (idx st) (fun i k => proj1 (H3 i k)) args 0 None I) as H.
-  Set Printing All. Show. destruct (find_fixed_loop 0 args None (idx st)) eqn:E; [rewrite E in H; exact H|exact H1].
+  destruct (find_fixed_loop 0 args None (idx st)); [exact H|exact H1].
 Qed.
 
 (* the repaired find never returns a clause that is not in the predicate *)
